@@ -46,6 +46,7 @@ type opData struct {
 	creator string
 	copies  int
 	block   bool
+	noTx    bool
 }
 
 type Driver struct{}
@@ -71,6 +72,9 @@ func (d *Driver) Enabled(e *mc.Env, s *mc.State) []mc.Op {
 	}
 	ops = append(ops, mc.Op{Name: "create2(c1,A)", Data: opData{content: 0, creator: "A", copies: 2}})
 	ops = append(ops, mc.Op{Name: "create3(c2,B)", Data: opData{content: 1, creator: "B", copies: 3}})
+	// the same message executed outside a transaction (empty tx bytes, as for a passed proposal): byte-identical
+	// records in different blocks then differ in nothing but the module's own counter
+	ops = append(ops, mc.Op{Name: "create-notx(c1,A)", Data: opData{content: 0, creator: "A", copies: 1, noTx: true}})
 	ops = append(ops, mc.Op{Name: "block", Data: opData{block: true}})
 	return ops
 }
@@ -91,12 +95,20 @@ func (d *Driver) Apply(e *mc.Env, s *mc.State, op mc.Op) []mc.Finding {
 		msgs = append(msgs, recordtypes.NewMsgCreateRecord(contents[od.content], mc.Addr(od.creator).String()))
 	}
 	seq := s.TxSeq
-	out := s.Deliver(e, op.Name, msgs...)
+	var out mc.Outcome
+	if od.noTx {
+		out = s.DeliverNoTx(e, msgs...)
+	} else {
+		out = s.Deliver(e, op.Name, msgs...)
+	}
 	var fs []mc.Finding
 	if !out.OK {
 		return append(fs, mc.F("C19/create-rejected/"+out.Class(), "valid create rejected: %s", out))
 	}
 	txh := tmhash.Sum(mc.TxBytesFor(fmt.Sprintf("%s#%d", op.Name, seq)))
+	if od.noTx {
+		txh = tmhash.Sum(nil)
+	}
 	for _, r := range out.Responses {
 		resp, ok := r.(*recordtypes.MsgCreateRecordResponse)
 		if !ok || resp.Id == "" {
